@@ -166,3 +166,19 @@ type rlocker struct{ m *RWMutex }
 
 func (r rlocker) Lock()   { r.m.RLock() }
 func (r rlocker) Unlock() { r.m.RUnlock() }
+
+// Once is sync.Once on a durable mutex: a second caller waits (durably) for the
+// first one's function to finish, as with sync.Once.
+type Once struct {
+	m    Mutex
+	done bool
+}
+
+func (o *Once) Do(f func()) {
+	o.m.Lock()
+	defer o.m.Unlock()
+	if !o.done {
+		defer func() { o.done = true }()
+		f()
+	}
+}
